@@ -99,6 +99,7 @@ class StreamCmp:
         self.rounded = False
         self.updates = 0
         self.eigen = False
+        self.drifted = False
         self.scale = {}
         self.cur = 0.0
         self.exact_values = 0
@@ -109,6 +110,7 @@ class StreamCmp:
         self.rounded = False
         self.updates = 0
         self.eigen = False
+        self.drifted = False
         self.scale = {}
         self.cur = 0.0
 
@@ -132,7 +134,13 @@ class StreamCmp:
         # the Eigen backend is not emulated bit for bit (its vectorised kernels differ from the scalar
         # float32 emulation in the last bit now and then; ill-conditioned settings such as beta2 = 0
         # amplify that): histories on devices::Eigen are compared 2^7 times more loosely
-        return (1.0 + self.updates / 32.0) * (128.0 if self.eigen and self.tol.rel < 2.0 ** -12 else 1.0)
+        # The same once model and implementation have differed in the last bits anywhere in the history
+        # (summation order of the clipping norm over the unordered_set): an ill-conditioned step (a
+        # gradient that cancels to ~0 against the weight decay, then Adam's division by sqrt(m2) ~ |g|)
+        # amplifies such a difference without bound.  The sharp 2^-18 therefore applies to the first
+        # divergence from a bit-identical history.
+        loose = (self.eigen or self.drifted) and self.tol.rel < 2.0 ** -12
+        return (1.0 + self.updates / 32.0) * (128.0 if loose else 1.0)
 
     def note(self, line):
         if line.startswith("update "):
@@ -163,6 +171,8 @@ class StreamCmp:
             if a == b:
                 return True
             ok = self.tol.close(pa[1], pb[1], self.growth(), self.cur)
+            if ok:
+                self.drifted = True
             if ok and not (math.isnan(pa[1]) or math.isnan(pb[1])):
                 d = abs(pa[1] - pb[1]) / max(abs(pa[1]), abs(pb[1]), self.cur, 1e-30)
                 self.max_dev = max(self.max_dev, d)
